@@ -22,6 +22,9 @@ from laneflow.build import K, P as Par, Cfg
 
 CFG = Cfg('int', headers=('glm/glm.hpp', 'glm/gtc/integer.hpp'))
 ITYPES = ['int8', 'uint8', 'int16', 'uint16', 'int', 'uint', 'int64', 'uint64']
+# the same functions with the SIMD / intrinsic specialisations of func_integer_simd.inl compiled in (scalar popcnt overloads, aligned vec4 ladders)
+CFG_SIMD = Cfg('int_avx2', defines=('GLM_FORCE_INTRINSICS',), flags=('-mavx2',), headers=('glm/glm.hpp', 'glm/gtc/integer.hpp', 'glm/gtc/type_aligned.hpp'))
+NEEDS_X86 = True
 
 
 def existence(ctx, k, name):
@@ -31,16 +34,18 @@ def existence(ctx, k, name):
     return None
 
 
-def reverse_case(T, L_):
+def reverse_case(T, L_, cfg=None, Q='highp'):
     sc = G.scalar(T)
     w = sc.elem * 8
+    sfx = '' if cfg is None else '@avx2'
+    cfg = cfg or CFG
     if L_ == 0:
-        k = K('rev_s_%s' % sc.tag, [Par('o', sc, False), Par('a', sc)], '*o = bitfieldReverse(*a);', CFG)
+        k = K('rev_s_%s' % sc.tag, [Par('o', sc, False), Par('a', sc)], '*o = bitfieldReverse(*a);', cfg)
         ty = sc
     else:
-        ty = G.vec(L_, T)
-        k = K('rev_%s' % ty.tag, [Par('o', ty, False), Par('a', ty)], '*o = bitfieldReverse(*a);', CFG)
-    name = 'bitfieldReverse<%s>' % (T if L_ == 0 else 'vec%d,%s' % (L_, T))
+        ty = G.vec(L_, T, Q)
+        k = K('rev_%s' % ty.tag, [Par('o', ty, False), Par('a', ty)], '*o = bitfieldReverse(*a);', cfg)
+    name = 'bitfieldReverse<%s>%s' % (T if L_ == 0 else 'vec%d,%s%s' % (L_, T, '' if Q == 'highp' else ',' + Q), sfx)
 
     def judge(ctx):
         e = existence(ctx, k, name)
@@ -91,17 +96,19 @@ def _perm(t, w):
     return ', '.join(out[:12]) + (' …' if len(out) > 12 else '')
 
 
-def count_case(T, L_):
+def count_case(T, L_, cfg=None, Q='highp'):
     sc = G.scalar(T)
     w = sc.elem * 8
     io = G.scalar('int')
+    sfx = '' if cfg is None else '@avx2'
+    cfg = cfg or CFG
     if L_ == 0:
-        k = K('cnt_s_%s' % sc.tag, [Par('o', io, False), Par('a', sc)], '*o = bitCount(*a);', CFG)
+        k = K('cnt_s_%s' % sc.tag, [Par('o', io, False), Par('a', sc)], '*o = bitCount(*a);', cfg)
         ty, oty = sc, io
     else:
-        ty, oty = G.vec(L_, T), G.vec(L_, 'int')
-        k = K('cnt_%s' % ty.tag, [Par('o', oty, False), Par('a', ty)], '*o = bitCount(*a);', CFG)
-    name = 'bitCount<%s>' % (T if L_ == 0 else 'vec%d,%s' % (L_, T))
+        ty, oty = G.vec(L_, T, Q), G.vec(L_, 'int', Q)
+        k = K('cnt_%s' % ty.tag, [Par('o', oty, False), Par('a', ty)], '*o = bitCount(*a);', cfg)
+    name = 'bitCount<%s>%s' % (T if L_ == 0 else 'vec%d,%s%s' % (L_, T, '' if Q == 'highp' else ',' + Q), sfx)
 
     def judge(ctx):
         e = existence(ctx, k, name)
@@ -337,14 +344,16 @@ def carry_cases(L_):
     return cs
 
 
-def find_cases(T):
+def find_cases(T, cfg=None):
     cs = []
+    sfx = '' if cfg is None else '@avx2'
+    cfg = cfg or CFG
     sc = G.scalar(T)
     w = sc.elem * 8
     io = G.scalar('int')
     for fn in ('findLSB', 'findMSB'):
-        k = K('%s_%s' % (fn, sc.tag), [Par('o', io, False), Par('a', sc)], '*o = %s(*a);' % fn, CFG)
-        name = '%s<%s>' % (fn, T)
+        k = K('%s_%s' % (fn, sc.tag), [Par('o', io, False), Par('a', sc)], '*o = %s(*a);' % fn, cfg)
+        name = '%s<%s>%s' % (fn, T, sfx)
 
         def judge(ctx, k=k, fn=fn, name=name):
             e = existence(ctx, k, name)
@@ -381,6 +390,14 @@ def cases(tier):
         cs += carry_cases(L_)
     for T in ITYPES:
         cs += find_cases(T)
+    # intrinsic configuration (AVX2): scalar overloads of every width, aligned vec4 forms of the 32-bit types
+    for T in ITYPES:
+        cs.append(count_case(T, 0, CFG_SIMD))
+        cs.append(reverse_case(T, 0, CFG_SIMD))
+        cs += find_cases(T, CFG_SIMD)
+    for T in ('int', 'uint'):
+        cs.append(count_case(T, 4, CFG_SIMD, 'aligned_highp'))
+        cs.append(reverse_case(T, 4, CFG_SIMD, 'aligned_highp'))
     cs += canaries()
     return cs
 
